@@ -83,7 +83,7 @@ impl Property for C09 {
             .prop_map(|(doc, signers, path, wire, flips, unrelated_seed)| Spec { doc, signers, path, wire, flips, unrelated_seed })
             .boxed()
     }
-    fn check(spec: &Spec, _env: &mut Env) -> Outcome {
+    fn check(spec: &Spec, env: &mut Env) -> Outcome {
         let mut o = Outcome::new();
         let meta = spec.doc.to_lib();
         let sks: Vec<_> = spec.signers.iter().map(private).collect();
@@ -178,7 +178,15 @@ impl Property for C09 {
         let direct_ok = reference.as_ref().map(|r| pk0.verify(r, s0).is_ok()).unwrap_or(false);
         o.class(if direct_ok { "direct-verify-available" } else { "direct-verify-unavailable" });
         let id0 = serde_json::to_value(s0.key_id()).unwrap().as_str().unwrap().to_string();
-        for f in &spec.flips {
+        // thorough tier: every bit position for a share of the Ed25519 cases
+        let nbits = s0.value().as_bytes().len() * 8;
+        let all_bits: Vec<u16> = if env.tier == Tier::Thorough && spec.signers[s0_key].is_deterministic() && spec.unrelated_seed % 8 == 0 {
+            o.class("all-bit-positions");
+            (0..nbits as u16).collect()
+        } else {
+            vec![]
+        };
+        for f in spec.flips.iter().chain(all_bits.iter()) {
             let mut b = s0.value().as_bytes().to_vec();
             let i = (*f as usize) % (b.len() * 8);
             b[i / 8] ^= 1 << (i % 8);
